@@ -15,11 +15,11 @@ NAMED = {  # named constant sets defined in MC_Bounds.tla (cfg files cannot hold
 
 def mc_bounds(chk: Check, name: str, *, N: int, cls: str, sing: str, slacks: str, computers: set, reps: set,
               maxchg: int, allow_reset: bool, tight: bool, edges: bool, invariants: list[str], timeout: int = 1200,
-              required_actions: list[str] | None = None):
+              required_actions: list[str] | None = None, brute: bool = False):
     cfg = chk.wd / f"MC_Bounds_{name}.cfg"
     vlib.write_cfg(cfg, constants={
         "N": N, "Class": cls, "SingVals": NAMED[sing], "Slacks": NAMED[slacks], "Computers": set(computers),
-        "Reps": set(reps), "MaxChg": maxchg, "AllowReset": allow_reset, "CheckTight": tight, "CheckEdges": edges,
+        "Reps": set(reps), "MaxChg": maxchg, "AllowReset": allow_reset, "CheckTight": tight, "CheckEdges": edges, "CheckBrute": brute,
     }, invariants=["GeneratedInClass"] + invariants)
     return chk.model_check("MC_Bounds", cfg.name, cfg_path=cfg, timeout=timeout, required_actions=required_actions)
 
@@ -31,7 +31,7 @@ def validate_bounds_traces(chk: Check, families: list[dict], props: set[str] | N
     for fam in families:
         args = ["--out", str(chk.wd / tag), "--seed", str(chk.seed), "--family", fam["family"], "--ns", fam["ns"],
                 "--count", str(fam.get("count", 20)), "--length", str(fam.get("length", 14)), "--gaps", str(fam.get("gaps", 0)),
-                "--reps", fam.get("reps", "0,1,2")]
+                "--reps", fam.get("reps", "0,1,2"), "--interleave", str(fam.get("interleave", 0))]
         summ = vlib.run_driver("drv_bounds", args, chk.wd)
         for f in summ["files"]:
             validate_file(chk, Path(f["path"]), f["n"], props, fam["family"])
